@@ -44,7 +44,7 @@ def gen_case(rng: random.Random, tier: str) -> dict:
     if fns and rng.random() < 0.4:
         for fi in range(2 if rng.random() < 0.3 else 1):
             nd, _d = rng.choice(fns)
-            faults.append({"kind": "raise", "node": nd["name"], "inv": rng.choice([0, 0, 1, None]), "when": rng.choice(["before", "after"]), "fid": fi})
+            faults.append({"kind": "raise", "node": nd["name"], "inv": rng.choice([0, 0, 1, None]), "when": rng.choice(["before", "after"]), "fid": fi, "exc": rng.choice(gen.EXC_KINDS)})
     ext = [e for e in g["ext"] if e not in g["lists"]]
     return {
         "graph": g,
@@ -59,7 +59,31 @@ def gen_case(rng: random.Random, tier: str) -> dict:
         "top_map_n": rng.randint(0, 3),
         "reject": rng.random() < 0.06,
         "select_seed": rng.randrange(1 << 30) if rng.random() < 0.3 else None,  # explicit select + on_missing="error"
+        "cache_fault": rng.choice([None, None, ["set", rng.randrange(4)], ["get", rng.randrange(4)]]) if cache else None,  # the backend itself raises
     }
+
+
+class FaultyCache:
+    """A caller-supplied CacheBackend whose k-th set()/get() raises (disk full, quota, lost connection)."""
+
+    def __init__(self, inner, kind: str, at: int, stats: dict) -> None:
+        self.inner, self.kind, self.at, self.n, self.stats = inner, kind, at, 0, stats
+
+    def _tick(self, kind: str) -> None:
+        if kind == self.kind:
+            i = self.n
+            self.n += 1
+            if i == self.at:
+                self.stats["fault_cache_backend_raises_on_" + kind] = self.stats.get("fault_cache_backend_raises_on_" + kind, 0) + 1
+                raise OSError(f"cache backend failure on {kind} #{i}")
+
+    def get(self, key):
+        self._tick("get")
+        return self.inner.get(key)
+
+    def set(self, key, value):
+        self._tick("set")
+        self.inner.set(key, value)
 
 
 def gate_decisions(g: dict, rts: list) -> dict:
@@ -137,7 +161,8 @@ def run_case(doc: dict) -> dict:
         for label, cfg in plans:
             cache = InMemoryCache() if doc.get("cache") else None
             warm_rts = []
-            if cache is not None:
+            if cache is not None and not (doc.get("cache_fault") and doc["cache_fault"][0] == "set"):
+                # (no warm-up when set() is to fail: the measured run must be the one that stores)
                 ww = run_world(g, values, mode=label, cfg=cfg, run_kwargs=dict(kw), op=op, cache=cache)
                 warm_rts.append(ww["rt"])
                 rts.append(ww["rt"])
@@ -150,7 +175,10 @@ def run_case(doc: dict) -> dict:
                 _box["procs"] = [a, s]
                 return [a, s]
 
-            w = run_world(g, values, mode=label, cfg=cfg, faults=copy.deepcopy(faults), run_kwargs=dict(kw), op=op, cache=cache, processors_factory=procs)
+            cache_m = cache
+            if cache is not None and doc.get("cache_fault"):
+                cache_m = FaultyCache(cache, doc["cache_fault"][0], doc["cache_fault"][1], res["stats"])
+            w = run_world(g, values, mode=label, cfg=cfg, faults=copy.deepcopy(faults), run_kwargs=dict(kw), op=op, cache=cache_m, processors_factory=procs)
             rts.append(w["rt"])
             res["runs"] += 1
             sim_stats(res, w["out"])
@@ -210,7 +238,7 @@ def shrink_candidates(doc: dict):
     from checks.c02 import shrink_program
 
     yield from shrink_program(doc)
-    for key, val in (("cache", False), ("top_map", None), ("max_iterations", None), ("reject", False), ("select_seed", None)):
+    for key, val in (("cache", False), ("top_map", None), ("max_iterations", None), ("reject", False), ("select_seed", None), ("cache_fault", None)):
         if doc.get(key):
             c = copy.deepcopy(doc)
             c[key] = val
